@@ -248,7 +248,17 @@ def _atomic(repo: Repo, L: Ledger, fi, wr: Func):
     why_pub = "temporary is never renamed onto the cache file"
     if pub:
         pc = pub[0]
-        ok_pub = with_node is not None and pc.lineno > with_node.end_lineno and not any(x is pc for x in ast.walk(with_node))
+        def _after(a, b):
+            """statement containing a comes after statement b in b's block (structural, not by line number)"""
+            blk_owner = getattr(b, "_parent", None)
+            for fld in ("body", "orelse", "finalbody"):
+                blk = getattr(blk_owner, fld, None)
+                if isinstance(blk, list) and b in blk:
+                    i = blk.index(b)
+                    return any(any(x is a for x in ast.walk(sx)) for sx in blk[i + 1:])
+            return False
+
+        ok_pub = with_node is not None and not any(x is pc for x in ast.walk(with_node)) and _after(pc, with_node)
         why_pub = "the rename happens before the temporary is closed (inside the with-block): the published file may be incomplete"
         if ok_pub:
             # on every normal path through the function after the with-block
